@@ -3,7 +3,7 @@ import json, os
 from fractions import Fraction
 from . import core
 
-SECTIONS = ["Disk"]
+SECTIONS = ["Disk", "DiskProg"]
 LEVEL = "proof"
 RULE = ("boundary-focused (total, free, min-space) triples: totals around 256 GiB / powers of two / 2^53 / 2^63 / 2^64, "
         "min-space from a table of awkward decimals plus random floats, free at floor/ceil(threshold)±1 and random; "
